@@ -15,7 +15,11 @@ using namespace Opm;
 static const std::vector<std::string>& wellnames() { static const std::vector<std::string> w { "W1", "W2", "W3" }; return w; }     // no dynamic initialisation of globals in the harness
 struct Sym { double v[3]; bool d[3]; };
 static Sym mksym(bool nonzero = false) { Sym s; for (int i = 0; i < 3; ++i) { s.v[i] = verif_nondet_real(); s.d[i] = nondet_bool(); if (nonzero) ASSUME(s.v[i] != 0.0); } return s; }
-static UDQSet mkset(const char* name, const Sym& s) { UDQSet u = UDQSet::wells(name, W); for (int i = 0; i < 3; ++i) if (s.d[i]) u.assign(i, s.v[i]); return u; }
+#ifndef GROUPSET
+#define GROUPSET 0
+#endif
+// the same three names as a well set or as a group set
+static UDQSet mkset(const char* name, const Sym& s) { UDQSet u = GROUPSET ? UDQSet::groups(name, W) : UDQSet::wells(name, W); for (int i = 0; i < 3; ++i) if (s.d[i]) u.assign(i, s.v[i]); return u; }
 #ifndef OPK
 #define OPK 0     /* 0 + 1 - 2 * 3 / */
 #endif
